@@ -550,4 +550,275 @@ theorem sim_createAccount (s : S) (g : GethSpec.G) (h : Sim s g) (a : Nat) (hs :
       · simp [objState, committed, AList.find?, GethSpec.stateOf, GethSpec.committedOf, setObj, append, h3, hs k]
       · simp [committed, AList.find?, GethSpec.committedOf, setObj, append, h3, hs k]
 
+/-! ### a reverted frame: the journaled model is back in relation with the reference state from before the frame -/
+
+theorem getObj_other (s : S) (a b : Nat) (h : a ≠ b) :
+    (getObj s a).1.cache = s.cache ∧ (getObj s a).1.txStore = s.txStore ∧ AList.find? (getObj s a).1.objs b = AList.find? s.objs b := by
+  unfold getObj
+  cases AList.find? s.objs a with
+  | some o => exact ⟨rfl, rfl, rfl⟩
+  | none =>
+    simp only
+    cases loadObj (curStore s) a with
+    | none => exact ⟨rfl, rfl, rfl⟩
+    | some o => exact ⟨rfl, rfl, AList.find?_set_ne _ _ _ _ h⟩
+
+theorem getOrNew_other (s : S) (a b : Nat) (h : a ≠ b) :
+    (getOrNew s a).1.cache = s.cache ∧ (getOrNew s a).1.txStore = s.txStore ∧
+      AList.find? (getOrNew s a).1.objs b = AList.find? s.objs b := by
+  obtain ⟨h1, h2, h3⟩ := getObj_other s a b h
+  unfold getOrNew
+  rcases hg : getObj s a with ⟨s1, _ | o⟩
+  · rw [hg] at h1 h2 h3
+    simp only at h1 h2 h3 ⊢
+    exact ⟨h1, h2, by rw [find_setObj_other _ _ _ _ h]; exact h3⟩
+  · rw [hg] at h1 h2 h3; exact ⟨h1, h2, h3⟩
+
+/-- a write call leaves the cache context, the store and every other account's object alone -/
+theorem applyW_other (s : S) (w : WOp) (b : Nat) (hb : w.acct ≠ some b) :
+    (applyW s w).cache = s.cache ∧ (applyW s w).txStore = s.txStore ∧ AList.find? (applyW s w).objs b = AList.find? s.objs b := by
+  cases w with
+  | addBalance a d =>
+    have hab : a ≠ b := fun e => hb (by simp [WOp.acct, e])
+    obtain ⟨h1, h2, h3⟩ := getOrNew_other s a b hab
+    simp only [applyW]; rw [addBalance_eq]
+    by_cases hd : d = 0
+    · simp only [hd, if_true]; exact ⟨h1, h2, h3⟩
+    · simp only [hd, if_false]; exact ⟨h1, h2, by rw [find_setObj_other _ _ _ _ hab]; exact h3⟩
+  | setNonce a n =>
+    have hab : a ≠ b := fun e => hb (by simp [WOp.acct, e])
+    obtain ⟨h1, h2, h3⟩ := getOrNew_other s a b hab
+    simp only [applyW]; rw [setNonce_eq]
+    exact ⟨h1, h2, by rw [find_setObj_other _ _ _ _ hab]; exact h3⟩
+  | setCode a c =>
+    have hab : a ≠ b := fun e => hb (by simp [WOp.acct, e])
+    obtain ⟨h1, h2, h3⟩ := getOrNew_other s a b hab
+    simp only [applyW]; rw [setCode_eq]
+    exact ⟨h1, h2, by rw [find_setObj_other _ _ _ _ hab]; exact h3⟩
+  | setState a k v =>
+    have hab : a ≠ b := fun e => hb (by simp [WOp.acct, e])
+    obtain ⟨h1, h2, h3⟩ := getOrNew_other s a b hab
+    simp only [applyW]; rw [setState_eq]
+    split
+    · exact ⟨h1, h2, by rw [find_setObj_other _ _ _ _ hab]; exact h3⟩
+    · exact ⟨h1, h2, by rw [find_setObj_other _ _ _ _ hab]; exact h3⟩
+  | suicide a =>
+    have hab : a ≠ b := fun e => hb (by simp [WOp.acct, e])
+    obtain ⟨h1, h2, h3⟩ := getObj_other s a b hab
+    simp only [applyW, suicide]
+    rcases hg : getObj s a with ⟨s1, _ | o⟩
+    · rw [hg] at h1 h2 h3; exact ⟨h1, h2, h3⟩
+    · rw [hg] at h1 h2 h3
+      simp only at h1 h2 h3 ⊢
+      exact ⟨h1, h2, by rw [find_setObj_other _ _ _ _ hab]; exact h3⟩
+  | addLog => exact ⟨rfl, rfl, rfl⟩
+  | addRefund r => exact ⟨rfl, rfl, rfl⟩
+  | subRefund r =>
+    simp only [applyW, subRefund]
+    split <;> exact ⟨rfl, rfl, rfl⟩
+  | addAddr a =>
+    obtain ⟨f1, f2, f3, _⟩ := addAddr_fields s a
+    exact ⟨f2, f1, by show AList.find? (addAddr s a).objs b = _; rw [f3]⟩
+  | addSlot a k =>
+    obtain ⟨f1, f2, f3, _⟩ := addSlot_fields s a k
+    exact ⟨f2, f1, by show AList.find? (addSlot s a k).objs b = _; rw [f3]⟩
+
+theorem applyAll_other {A : List Nat} (ws : List WOp) (s : S) (hw : ∀ w ∈ ws, ∀ a, w.acct = some a → a ∈ A) (b : Nat) (hb : b ∉ A) :
+    (applyAll s ws).cache = s.cache ∧ (applyAll s ws).txStore = s.txStore ∧ AList.find? (applyAll s ws).objs b = AList.find? s.objs b := by
+  induction ws generalizing s with
+  | nil => exact ⟨rfl, rfl, rfl⟩
+  | cons w ws ih =>
+    have hwb : w.acct ≠ some b := fun e => hb (hw w (List.mem_cons_self ..) b e)
+    obtain ⟨h1, h2, h3⟩ := applyW_other s w b hwb
+    obtain ⟨i1, i2, i3⟩ := ih (applyW s w) (fun x hx => hw x (List.mem_cons_of_mem _ hx))
+    exact ⟨i1.trans h1, i2.trans h2, i3.trans h3⟩
+
+/-- reverting an entry of a write call on an account of `A` leaves the cache context and every object outside `A` alone -/
+theorem revertEntry_other {A : List Nat} (s : S) (e : Entry) (he : EntryOn A e) (b : Nat) (hb : b ∉ A) :
+    (revertEntry s e).cache = s.cache ∧ AList.find? (revertEntry s e).objs b = AList.find? s.objs b := by
+  have key : ∀ (a : Nat) (f : Obj → Obj), a ∈ A →
+      (match getObj s a with | (s1, some o) => setObj s1 a (f o) | (s1, none) => s1).cache = s.cache ∧
+      AList.find? (match getObj s a with | (s1, some o) => setObj s1 a (f o) | (s1, none) => s1).objs b = AList.find? s.objs b := by
+    intro a f ha
+    have hab : a ≠ b := fun e => hb (e ▸ ha)
+    obtain ⟨h1, _, h3⟩ := getObj_other s a b hab
+    rcases hg : getObj s a with ⟨s1, _ | o⟩
+    · rw [hg] at h1 h3; exact ⟨h1, h3⟩
+    · rw [hg] at h1 h3
+      simp only at h1 h3 ⊢
+      exact ⟨h1, by rw [find_setObj_other _ _ _ _ hab]; exact h3⟩
+  cases e with
+  | balance a p => exact key a (fun o => { o with balance := p }) he
+  | nonce a p => exact key a (fun o => { o with nonce := p }) he
+  | code a p => exact key a (fun o => { o with codeHash := p, dirtyCode := true }) he
+  | storage a k p => exact key a (fun o => { o with dirty := AList.set o.dirty k p }) he
+  | suicide a p pb => exact key a (fun o => { o with suicided := p, balance := pb }) he
+  | refund p => exact ⟨rfl, rfl⟩
+  | addLog => exact ⟨rfl, rfl⟩
+  | alAddr a => exact ⟨rfl, rfl⟩
+  | alSlot a k => exact ⟨rfl, rfl⟩
+  | createObject a => exact he.elim
+  | resetObject a p => exact he.elim
+  | precompile c => exact he.elim
+
+theorem revertEntries_other {A : List Nat} (es : List Entry) (hes : ∀ e ∈ es, EntryOn A e) (s : S) (b : Nat) (hb : b ∉ A) :
+    (revertEntries s es).cache = s.cache ∧ AList.find? (revertEntries s es).objs b = AList.find? s.objs b := by
+  induction es generalizing s with
+  | nil => exact ⟨rfl, rfl⟩
+  | cons e t ih =>
+    simp only [revertEntries, List.foldl_cons]
+    obtain ⟨h1, h2⟩ := revertEntry_other s e (hes e (List.mem_cons_self ..)) b hb
+    obtain ⟨i1, i2⟩ := ih (fun x hx => hes x (List.mem_cons_of_mem _ hx)) (revertEntry s e)
+    exact ⟨i1.trans h1, i2.trans h2⟩
+
+/-- transport of the simulation along observational equality on `A` and identity outside `A` -/
+theorem sim_of_eqv {A : List Nat} (s s3 : S) (g : GethSpec.G) (h : Sim s g) (he : Eqv A s3 s) (hc : s3.cache = none)
+    (hout : ∀ b, b ∉ A → AList.find? s3.objs b = AList.find? s.objs b) : Sim s3 g := by
+  refine ⟨hc, by rw [he.store]; exact h.storeOK, fun b => ?_, he.refund.trans h.refund, he.logs.trans h.logs,
+    he.alA.trans h.alA, he.alS.trans h.alS⟩
+  by_cases hb : b ∈ A
+  · obtain ⟨o3, o, f3, f, eo⟩ := he.objs b hb
+    have hr := h.objs b
+    have e1 : objOf s3 b = some o3 := by unfold objOf; rw [f3]
+    have e2 : objOf s b = some o := by unfold objOf; rw [f]
+    rw [e1]; rw [e2] at hr
+    cases hx : GethSpec.obj? g b with
+    | none => rw [hx] at hr; exact hr.elim
+    | some x =>
+      rw [hx] at hr
+      obtain ⟨r1, r2, r3, r4, r5, r6⟩ := hr
+      obtain ⟨q1, q2, q3, q4, q5, q6⟩ := eo
+      refine ⟨q1.trans r1, q2.trans r2, q3.trans r3, q4.trans r4, fun k => ?_, fun k => ?_⟩
+      · rw [objState_eq]
+        refine (q6 k).trans ?_
+        rw [he.store, ← objState_eq]
+        exact r5 k
+      · unfold committed
+        refine (q5 k).trans ?_
+        rw [he.store]
+        exact r6 k
+  · have e1 : objOf s3 b = objOf s b := by unfold objOf; rw [hout b hb, he.store]
+    rw [e1]
+    exact Rel_congr s s3 g g he.store rfl b _ _ (h.objs b)
+
+theorem getObj_cache2 (s : S) (a : Nat) : (getObj s a).1.cache = s.cache := by
+  unfold getObj
+  cases AList.find? s.objs a with
+  | some o => rfl
+  | none =>
+    simp only
+    cases loadObj (curStore s) a <;> rfl
+
+theorem getOrNew_cache2 (s : S) (a : Nat) : (getOrNew s a).1.cache = s.cache := by
+  have h := getObj_cache2 s a
+  unfold getOrNew
+  rcases hg : getObj s a with ⟨s1, _ | o⟩
+  · rw [hg] at h; exact h
+  · rw [hg] at h; exact h
+
+theorem applyW_cache (s : S) (w : WOp) : (applyW s w).cache = s.cache := by
+  cases w with
+  | addBalance a d =>
+    simp only [applyW]; rw [addBalance_eq]
+    split <;> exact getOrNew_cache2 s a
+  | setNonce a n => simp only [applyW]; rw [setNonce_eq]; exact getOrNew_cache2 s a
+  | setCode a c => simp only [applyW]; rw [setCode_eq]; exact getOrNew_cache2 s a
+  | setState a k v =>
+    simp only [applyW]; rw [setState_eq]
+    split <;> exact getOrNew_cache2 s a
+  | suicide a =>
+    have h := getObj_cache2 s a
+    simp only [applyW, suicide]
+    rcases hg : getObj s a with ⟨s1, _ | o⟩
+    · rw [hg] at h; exact h
+    · rw [hg] at h; exact h
+  | addLog => rfl
+  | addRefund r => rfl
+  | subRefund r => simp only [applyW, subRefund]; split <;> rfl
+  | addAddr a => exact (addAddr_fields s a).2.1
+  | addSlot a k => exact (addSlot_fields s a k).2.1
+
+theorem applyAll_cache (ws : List WOp) (s : S) : (applyAll s ws).cache = s.cache := by
+  induction ws generalizing s with
+  | nil => rfl
+  | cons w ws ih => exact (ih (applyW s w)).trans (applyW_cache s w)
+
+theorem revertEntry_cache2 {A : List Nat} (s : S) (e : Entry) (he : EntryOn A e) : (revertEntry s e).cache = s.cache := by
+  have key : ∀ (a : Nat) (f : Obj → Obj),
+      (match getObj s a with | (s1, some o) => setObj s1 a (f o) | (s1, none) => s1).cache = s.cache := by
+    intro a f
+    have h := getObj_cache2 s a
+    rcases hg : getObj s a with ⟨s1, _ | o⟩
+    · rw [hg] at h; exact h
+    · rw [hg] at h; exact h
+  cases e with
+  | balance a p => exact key a (fun o => { o with balance := p })
+  | nonce a p => exact key a (fun o => { o with nonce := p })
+  | code a p => exact key a (fun o => { o with codeHash := p, dirtyCode := true })
+  | storage a k p => exact key a (fun o => { o with dirty := AList.set o.dirty k p })
+  | suicide a p pb => exact key a (fun o => { o with suicided := p, balance := pb })
+  | refund p => rfl
+  | addLog => rfl
+  | alAddr a => rfl
+  | alSlot a k => rfl
+  | createObject a => exact he.elim
+  | resetObject a p => exact he.elim
+  | precompile c => exact he.elim
+
+theorem revertEntries_cache2 {A : List Nat} (es : List Entry) (hes : ∀ e ∈ es, EntryOn A e) (s : S) :
+    (revertEntries s es).cache = s.cache := by
+  induction es generalizing s with
+  | nil => rfl
+  | cons e t ih =>
+    simp only [revertEntries, List.foldl_cons]
+    exact (ih (fun x hx => hes x (List.mem_cons_of_mem _ hx)) (revertEntry s e)).trans
+      (revertEntry_cache2 s e (hes e (List.mem_cons_self ..)))
+
+/-- **a reverted frame.** From related states, with the accounts of `A` cached (the interpreter reads an account before it writes
+    it): Snapshot, any sequence of writes on accounts of `A`, RevertToSnapshot — the call succeeds and the journaled model is again
+    related to the reference state from before the frame (to which the reference's own revert returns, `C03_spec_revert_restores`). -/
+theorem sim_reverted_frame {A : List Nat} (s : S) (g : GethSpec.G) (h : Sim s g) (hc : Cached A s)
+    (hrev : ∀ r ∈ s.revisions, r.1 < s.nextRev) (ws : List WOp) (hw : ∀ w ∈ ws, ∀ a, w.acct = some a → a ∈ A) :
+    ∃ s3, revertToSnapshot (applyAll (snapshot s).1 ws) (snapshot s).2 = some s3 ∧ Sim s3 g := by
+  obtain ⟨s3, h3, he⟩ := snapshot_revert_restores s hc hrev ws hw
+  refine ⟨s3, h3, ?_⟩
+  -- what the reverted state is made of
+  obtain ⟨es, hj, hon, _⟩ := undo_all ws (snapshot s).1 (cached_of_objs hc rfl) hw
+  have hid : (snapshot s).2 = s.nextRev := rfl
+  have hr' : (applyAll (snapshot s).1 ws).revisions = s.revisions ++ [(s.nextRev, s.journal.length)] :=
+    (applyAll_revisions (snapshot s).1 ws).1
+  have hfind := find_ge_appended s.revisions s.nextRev s.journal.length hrev
+  have h3' := h3
+  unfold revertToSnapshot at h3'
+  rw [hid, hr', hfind] at h3'
+  simp at h3'
+  have hc3 : s3.cache = (revertTo (applyAll (snapshot s).1 ws) s.journal.length).cache := by rw [← h3']
+  have ho3 : s3.objs = (revertTo (applyAll (snapshot s).1 ws) s.journal.length).objs := by rw [← h3']
+  have hdrop : (applyAll (snapshot s).1 ws).journal.drop s.journal.length = es := by
+    rw [hj]; show (s.journal ++ es).drop s.journal.length = es; simp
+  have hes : ∀ e ∈ es.reverse, EntryOn A e := fun e he => hon e (List.mem_reverse.mp he)
+  have hcache : s3.cache = none := by
+    rw [hc3]
+    show (revertEntries (applyAll (snapshot s).1 ws) ((applyAll (snapshot s).1 ws).journal.drop s.journal.length).reverse).cache = none
+    rw [hdrop, revertEntries_cache2 es.reverse hes, applyAll_cache]
+    exact h.cache
+  have hout : ∀ b, b ∉ A → AList.find? s3.objs b = AList.find? s.objs b := by
+    intro b hb
+    rw [ho3]
+    show AList.find? (revertEntries (applyAll (snapshot s).1 ws)
+      ((applyAll (snapshot s).1 ws).journal.drop s.journal.length).reverse).objs b = _
+    rw [hdrop, (revertEntries_other es.reverse hes _ b hb).2, (applyAll_other ws (snapshot s).1 hw b hb).2.2]
+    rfl
+  exact sim_of_eqv s s3 g h he hcache hout
+
+/-- the relation only looks at the reference's persisted base and transaction state -/
+theorem sim_congr_ref (s : S) (g g' : GethSpec.G) (hb : g'.base = g.base) (ht : g'.tx = g.tx) (h : Sim s g) : Sim s g' := by
+  refine ⟨h.cache, h.storeOK, fun a => ?_, by rw [ht]; exact h.refund, by rw [ht]; exact h.logs, by rw [ht]; exact h.alA,
+    by rw [ht]; exact h.alS⟩
+  have e : GethSpec.obj? g' a = GethSpec.obj? g a := by unfold GethSpec.obj?; rw [ht, hb]
+  rw [e]
+  exact Rel_congr s s g g' rfl hb a _ _ (h.objs a)
+
+theorem toSpec_plain (w : WOp) : (toSpec w).plain = true := by cases w <;> rfl
+
 end Nibiru.SDB
